@@ -196,6 +196,20 @@ def run(project: Project, rep, tier: str):
         else:
             rep.refuted("PE-INF", fi, fi.node, "keep_inf=True with a value: infinite entries are not replaced by it",
                         construct=f"{PE}: inf substitution")
+    # a supplied value is a number like any other: no value of it alone (0, say, through a truth test) may turn the call
+    # into the 'no value given' rejection
+    def _only_val(c):
+        leaves = [x for x in sym.walk(c) if x[0] in ("in", "sym", "size", "opq", "fn")]
+        return bool(leaves) and all(x[0] == "sym" and x[1] == "val_inf" for x in leaves)
+    for ev in I.log:
+        if ev["kind"] == "raise" and ev["path"] and all(_only_val(c) for c in ev["path"]):
+            rep.refuted("PE-INF", ev["fi"], ev["node"], "keep_inf=True with a value supplied: the call is rejected whenever "
+                        f"{' and '.join(sym.show(c) for c in ev['path'])[:80]}, whatever the diagram — that supplied value is "
+                        "treated as 'no value given'", construct=f"{PE}: supplied val_inf rejected by its own value")
+            break
+    else:
+        rep.discharged("PE-INF", fi, fi.node, "keep_inf=True with a value supplied: no value of val_inf alone leads to a rejection",
+                       nontrivial=False)
     # keep_inf=False with a value supplied: the flag decides — the value must play no part (same result as without it)
     I0, r0 = _run(project, {P_DGMS: dgm_input("X"), P_KEEP: Sc(sym.FALSE), P_VAL: NoneV(), P_NORM: Sc(sym.FALSE)}, finite=())
     I1, r1 = _run(project, {P_DGMS: dgm_input("X"), P_KEEP: Sc(sym.FALSE), P_VAL: Sc(sym.Sym("val_inf")), P_NORM: Sc(sym.FALSE)},
@@ -229,7 +243,9 @@ def run(project: Project, rep, tier: str):
     I, r = _run(project, {P_DGMS: Seq([dgm_input("X"), dgm_input("Y")], "list"), P_KEEP: Sc(sym.FALSE), P_VAL: NoneV(),
                           P_NORM: Sc(sym.FALSE)})
     es = _elems(r)
-    if es is None or len(es) != 2:
+    if es is None and not (isinstance(r, Arr) and r.ndim == 1) and not isinstance(r, Sc):
+        rep.unmodelled("PE-LIST", fi, fi.node, f"result for a list of two diagrams not modelled: {r!r}"[:160])
+    elif es is None or len(es) != 2:
         rep.refuted("PE-LIST", fi, fi.node, f"a list of two diagrams does not yield a vector of two values: {r!r}"[:200],
                     construct=f"{PE}: list handling")
     else:
